@@ -172,10 +172,10 @@ func (c *Coder) DecodeHeader(data []byte, h *MessageHeader) (int, error) {
 		return -1, message.ErrInvalidTokenLen
 	}
 
-	var opLen int
+	var opLen uint64
 	switch {
 	case lenNib < MessageLength13Base:
-		opLen = int(lenNib)
+		opLen = uint64(lenNib)
 	case lenNib == 13:
 		if len(data) < 1 {
 			return -1, message.ErrShortRead
@@ -183,7 +183,7 @@ func (c *Coder) DecodeHeader(data []byte, h *MessageHeader) (int, error) {
 		extLen := data[0]
 		data = data[1:]
 		hdrOff++
-		opLen = MessageLength13Base + int(extLen)
+		opLen = MessageLength13Base + uint64(extLen)
 	case lenNib == 14:
 		if len(data) < 2 {
 			return -1, message.ErrShortRead
@@ -191,7 +191,7 @@ func (c *Coder) DecodeHeader(data []byte, h *MessageHeader) (int, error) {
 		extLen := binary.BigEndian.Uint16(data)
 		data = data[2:]
 		hdrOff += 2
-		opLen = MessageLength14Base + int(extLen)
+		opLen = MessageLength14Base + uint64(extLen)
 	case lenNib == 15:
 		if len(data) < 4 {
 			return -1, message.ErrShortRead
@@ -199,10 +199,15 @@ func (c *Coder) DecodeHeader(data []byte, h *MessageHeader) (int, error) {
 		extLen := binary.BigEndian.Uint32(data)
 		data = data[4:]
 		hdrOff += 4
-		opLen = MessageLength15Base + int(extLen)
+		opLen = MessageLength15Base + uint64(extLen)
 	}
 
-	h.MessageLength = hdrOff + 1 + uint32(tkl) + math.CastTo[uint32](opLen)
+	messageLength := uint64(hdrOff) + 1 + uint64(tkl) + opLen
+	if messageLength > uint64(^uint32(0)) {
+		// the announced length does not fit into MessageHeader.MessageLength
+		return -1, ErrMessageTooLarge
+	}
+	h.MessageLength = math.CastTo[uint32](messageLength)
 	if len(data) < 1 {
 		return -1, message.ErrShortRead
 	}
